@@ -32,6 +32,7 @@ def config_letters():
         'fc_pass': b'[snoopy]\nfilter_chain = only_root\n',
         'out_file': b'[snoopy]\noutput = file:log\n', 'out_file2': b'[snoopy]\noutput = file:log2\n', 'out_stdout': b'[snoopy]\noutput = stdout\n', 'out_stderr': b'[snoopy]\noutput = stderr\n',
         'out_sock': b'[snoopy]\noutput = socket:sock\n', 'out_devnull': b'[snoopy]\noutput = devnull\n', 'out_devtty': b'[snoopy]\noutput = devtty\n', 'out_devlog': b'[snoopy]\noutput = devlog\n',
+        'out_stdout_emptyarg': b'[snoopy]\noutput = stdout:\n', 'out_devlog_emptyarg': b'[snoopy]\noutput = devlog:\n', 'out_file_emptyarg': b'[snoopy]\noutput = file:\n',
         'out_filetpl': b'[snoopy]\noutput = file:lo%{snoopy_literal:g}2\n',
         'errlog': b'[snoopy]\nerror_logging = yes\nlog_message_max_length = 255\nmessage_format = X%{cmdline}\noutput = file:log\n',
         'errlog_only': b'[snoopy]\nerror_logging = yes\n',
